@@ -19,10 +19,11 @@ fn area_signature(o: &OShape) -> String {
     match o {
         OShape::Poly(_) => "LineShape::area:wrong".into(),
         OShape::Discs(d) => {
-            if geom::any_containment(d) {
-                "MolecularShape2::area:disc-contained-in-another".into()
-            } else if geom::triple_common_point(d) {
+            // a common point of three discs also covers "two contained discs that overlap"
+            if geom::triple_common_point(d) {
                 "MolecularShape2::area:three-discs-share-a-point".into()
+            } else if geom::any_containment(d) {
+                "MolecularShape2::area:disc-contained-in-another".into()
             } else {
                 "MolecularShape2::area:wrong".into()
             }
